@@ -74,7 +74,7 @@ class Info(object):
 
     def is_auto(self, tn):
         ts = self.tasks[tn]
-        return bool(ts.get("auto")) or ts.get("sub") is not None
+        return bool(ts.get("auto")) or (ts.get("sub") is not None and ts["sub"].get("auto", True))
 
     def unit(self, tn):
         u = self.tasks[tn].get("unit")
